@@ -244,6 +244,38 @@ def ob_reuse(kind, r1, r2, how):
     return run
 
 
+def ob_sampling(r):
+    """the sample points at resolutions beyond the defuzzification bound (the default 1000 included): exactly r of them, the midpoints
+    of r equal cells of [lo, hi] - decided for the sampling alone (Op.midpoints, which every integral defuzzifier calls), with symbolic
+    range; the number of points does not depend on how 1/r rounds"""
+    def run(ob):
+        fl = install()
+        set_mode("R")
+        lo, hi = rvar("lo"), rvar("hi")
+        pre = [lo.v < hi.v]
+        ins = {"lo": lo, "hi": hi}
+        label = f"sampling/r{r}"
+
+        def rbody(v):
+            return "\n".join([f"lo, hi, r = {lit(v['lo'])}, {lit(v['hi'])}, {r}", "x = np.atleast_1d(fl.Op.midpoints(lo, hi, r))",
+                              "exp = [lo + (i + 0.5) * ((hi - lo) / r) for i in range(r)]",
+                              "verdict(len(x) != r or not same(x, exp, 1e-9), 'midpoints(%r, %r, %d): %d points, last %r; documented %d points, last %r' % (lo, hi, r, len(x), x[-1], r, exp[-1]))"])
+
+        rp = replay_fn(PROPERTY, label, rbody, key=None)
+        X = zmid(lo.v, hi.v, r)
+        for p in ob.paths(pre, lambda: fl.Op.midpoints(lo, hi, r)):
+            if p.exc is not None:
+                ob.unexpected(pre, p, label, ins, rp)
+                continue
+            xs = elements(p.result)
+            if len(xs) != r:
+                ob.prove(pre, p, False, f"{label}: {len(xs)} sample points", ins, rp)
+                continue
+            ob.prove(pre, p, z3.And(*[is_val(a, x) for a, x in zip(xs, X)]), label, ins, rp)
+
+    return run
+
+
 def ob_order(r):
     def run(ob):
         fl = install()
@@ -396,6 +428,8 @@ def _obligations(tier, seed):
                     if batch and k == 1 and tier == "quick":
                         continue
                     obs.append((f"aggregated/{imp}/{agg}/k{k}/{'batch' if batch else 'scalar'}", ob_aggregated(imp, agg, k, batch, npts)))
+    for r in ((49, 98, 103, 1000) if tier == "quick" else (49, 98, 103, 107, 161, 187, 196, 197, 200, 500, 1000, 1023, 2000)):
+        obs.append((f"sampling/r{r}", ob_sampling(r)))
     obs.append(("aggregated/Minimum/Maximum/k2/reused-degree-buffer", ob_aggregated("Minimum", "Maximum", 2, True, npts, reuse_buffer=True)))
     obs.append(("aggregated/AlgebraicProduct/UnboundedSum/k3/reused-degree-buffer", ob_aggregated("AlgebraicProduct", "UnboundedSum", 3, True, npts, reuse_buffer=True)))
     for agg in ("Maximum", "UnboundedSum"):
